@@ -123,3 +123,17 @@ H("C06", "css/parser", "VxH_C06_badurl", reach=["tokenized"], bounds="'url(a b' 
 H("C07", "svg", "VxH_C07_svg_attrs", reach=["parseValue", "parseViewbox", "parsePreserveAspectRatio", "parsePoints"], bounds="9 SVG attribute parsers on every byte string of length 0..3 (thorough 4)", thorough={"shards": 8, "time": "2400s", "maxpaths": 4000000})
 H("C07", "svg", "VxH_C07_svg_transform", reach=["parsed-with-name"], bounds="parseTransform on every byte string of length 0..3 (thorough 4), alone and after 5 function names", thorough={"shards": 8, "time": "2400s", "maxpaths": 4000000})
 H("C07", "svg", "VxH_C07_svg_path", reach=["parsed-after-command"], bounds="parsePath on every byte string of length 0..3 (thorough 4), alone and after 7 command prefixes", thorough={"shards": 8, "time": "2400s", "maxpaths": 4000000})
+
+# ---- C18 SVG geometry ----
+ASSUMPTIONS["C18"] = [
+    "numbers in path data are symbolic digit strings; their values are an uninterpreted function of the bytes (the same in code and oracle), so the checks decide how text is split and which number goes where, not decimal conversion",
+    "real mode for the viewBox arithmetic; arcs (trigonometric, data-dependent segment counts), shapes, markers, gradients and use-resolution are outside the claim",
+]
+CLAIMS["C18"] = {
+    "text": "The solver shows that number lists are split exactly as the SVG number grammar prescribes, that each path command (absolute/relative, implicit repetition, H/V, smooth S/T reflection, quadratic elevation, closepath) produces the operations of a reference SVG path interpreter for symbolic coordinates, and that preserveAspectRatio/viewBox yields the specified scale and offsets for fully symbolic sizes.",
+    "design_ref": "DESIGN.md section 4 C18",
+    "note": "Trusted: symgo, z3 (nlsat), ParseFloat model. Number lists of <=4 bytes (thorough 5) over the alphabet [0-9.+-e ,]; path histories of two commands with <=2 argument groups; arcs not covered.",
+}
+H("C18", "svg", "VxH_C18_numbers", reach=["valid", "invalid"], bounds="number list text of 1..4 bytes (thorough 5) over [0-9 . - + e space comma]", thorough={"shards": 8, "time": "2400s", "maxpaths": 4000000})
+H("C18", "svg", "VxH_C18_viewbox", mode="real", reach=["resolved"], bounds="fully symbolic positive viewport and viewBox sizes, symbolic origin; 9 alignments x none/meet/slice")
+H("C18", "svg", "VxH_C18_path", mode="real", reach=["parsed"], bounds="'M x y', one optional previous command (L C Q S T Z c q), then any of MmLlHhVvCcSsQqTtZz with 1..2 argument groups; coordinates are symbolic digits")
